@@ -2,6 +2,10 @@
 -- (every module that must be built by `lake build EpModel` is imported here)
 import EpModel.Model.Basic
 import EpModel.Model.Checksum
+import EpModel.Model.Defrag
+import EpModel.Spec.Reassembly
+import EpModel.Lemmas.Defrag
+import EpModel.Lemmas.DefragPool
 import EpModel.Driver.Ck
 import EpModel.Driver.Bf
 import EpModel.Driver.Opt
@@ -14,3 +18,4 @@ import EpModel.Driver.Set
 import EpModel.Driver.Build
 import EpModel.Driver.Dec
 import EpModel.Props.C09
+import EpModel.Props.C11
